@@ -512,17 +512,26 @@ def gen_linear(tier, rng):
             if rank > 1 and rep % 3 == 0:
                 sb = sb[1:]            # broadcast partner
             a = reals8(rng, prod(sa)); b = reals8(rng, prod(sb))
+            if rep % 5 == 3:
+                # equal operands: the distance is ||eps||_p, only the eps term is left
+                sb = list(sa); b = list(a)
+            if rep % 5 == 4:
+                # a zero vector along the last axis: cosine_similarity must clamp the norm with eps instead of dividing by 0
+                for t in range(D):
+                    a[t] = 0.0
             aa, ba = np.array(a).reshape(sa), np.array(b).reshape(sb)
-            mag = max(abs(t) for t in a + b) * 2 + 1
+            # magnitude of the terms |a_i - b_i + eps| (a, b multiples of 1/8: the difference is exact)
+            dmax = float(np.max(np.abs(np.broadcast_to(aa, np.broadcast_shapes(tuple(sa), tuple(sb))) - np.broadcast_to(ba, np.broadcast_shapes(tuple(sa), tuple(sb))))))
+            mag = dmax + 1e-6
             if rep % 2 == 0:
                 out = ref.pairwise_distance(aa, ba)
                 yield Case('pairwise_distance as=%s a=%s bs=%s b=%s form=default' % (fmt(sa), fdata(a), fmt(sb), fdata(b)), H_LIN, oracle=fres(out), model=False,
-                           tags=['pairwise_distance', 'rank=%d' % rank, 'default'], cmp=close_cmp(D + 6, mag * math.sqrt(D)))
+                           tags=['pairwise_distance', 'rank=%d' % rank, 'default'] + (['equal-operands'] if rep % 5 == 3 else []), cmp=close_cmp(D + 6, mag * D))
             else:
                 ordv = rng.randint(1, 3); kd = rng.randint(0, 1)
                 out = ref.pairwise_distance(aa, ba, ordv, 1e-6, bool(kd))
                 yield Case('pairwise_distance as=%s a=%s bs=%s b=%s ord=%d eps=0.000001 keepdims=%d' % (fmt(sa), fdata(a), fmt(sb), fdata(b), ordv, kd), H_LIN,
-                           oracle=fres(out), model=False, tags=['pairwise_distance', 'rank=%d' % rank, 'ord=%d' % ordv, 'keepdims=%d' % kd],
+                           oracle=fres(out), model=False, tags=['pairwise_distance', 'rank=%d' % rank, 'ord=%d' % ordv, 'keepdims=%d' % kd] + (['equal-operands'] if rep % 5 == 3 else []),
                            cmp=close_cmp(D + 6, mag * D))
             if rank >= 2 and rep % 2 == 0:
                 out = ref.cosine_similarity(aa, ba)
